@@ -277,8 +277,11 @@ class Roles(Sub):
     rule = "sequences of set/get/get_all over 3 pubkeys and role strings (mixed case, empty, duplicates); non-trivial = a pubkey is set at least twice"
 
     def strategy(self, tier):
+        roles = st.sampled_from(["a", "r", "w", "rw", "RW", "", "aws", "s", "wr", "rrw"])
         op = st.one_of(
-            st.tuples(st.just("set"), st.integers(0, 2), st.sampled_from(["a", "r", "w", "rw", "RW", "", "aws", "s", "wr", "rrw"])),
+            st.tuples(st.just("set"), st.integers(0, 2), roles),
+            # LMDB applies the assignment on its writer thread: a lookup may fall between the call and the write
+            st.tuples(st.just("set-lookup-apply"), st.integers(0, 2), roles),
             st.tuples(st.just("get"), st.integers(0, 3)), st.tuples(st.just("all")))
         return st.tuples(st.sampled_from(["kv", "sql"]), st.lists(op.map(list), min_size=2, max_size=10)).map(list)
 
@@ -293,13 +296,22 @@ class Roles(Sub):
         cfg = {"authentication": {"enabled": True, "relay_urls": [URL]}, "service_privatekey": bootstrap.SERVICE_SK}
         async with H.Rig(backend, config=cfg) as rig:
             for step, op in enumerate(ops):
-                if op[0] == "set":
+                if op[0] in ("set", "set-lookup-apply"):
                     pk = E.PKS[op[1]]
                     await rig.storage.set_auth_roles(pk, op[2])
+                    if op[0] == "set-lookup-apply":
+                        early = await rig.storage.get_auth_roles(pk)   # old or new value: both fine (write lag)
+                        if set(early) not in (model.get(pk, {"a"}), set(op[2].lower())):
+                            viol.append(V("%s-roles-read-back-differ" % backend, "a lookup returns the previous or the new assignment",
+                                          step=step, got=sorted(early)))
                     rig.pump()
                     await rig.settle()
                     model[pk] = set(op[2].lower())
                     sets[pk] = sets.get(pk, 0) + 1
+                    got = await rig.storage.get_auth_roles(pk)
+                    if set(got) != model[pk]:
+                        viol.append(V("%s-roles-read-back-differ" % backend, "role assignments read back exactly as last set",
+                                      step=step, pubkey=pk[:8], got=sorted(got), want=sorted(model[pk]), ops=ops))
                 elif op[0] == "get":
                     pk = E.PKS[op[1]]
                     got = await rig.storage.get_auth_roles(pk)
